@@ -439,6 +439,10 @@ def scene_recipes(tier, seed, scale):
     for s in scheds:
         out.append({"kind": "toy_opt", "algorithm": "Adam", "scheduler": s, "loss": "map", "iterations": 10, "freq": 3, "param_dtype": "default", "logger": s == "none"})
         out.append({"kind": "toy_opt", "algorithm": "SGD-momentum", "scheduler": s, "loss": "map", "iterations": 10, "freq": 4, "param_dtype": "torch.float32"})
+    # parameter dtype different from the default dtype (state tensors created with the default dtype)
+    out.append({"kind": "toy_opt", "algorithm": "NAdam", "scheduler": "none", "loss": "map", "iterations": 6, "freq": 2, "param_dtype": "torch.float32"})
+    out.append({"kind": "toy_opt", "algorithm": "ASGD", "scheduler": "none", "loss": "ELBO", "samples": 2, "iterations": 6, "freq": 2, "param_dtype": "torch.float64", "dtype": "float32"})
+    out.append({"kind": "toy_opt", "algorithm": "Adam", "scheduler": "StepLR", "loss": "map", "iterations": 6, "freq": 2, "param_dtype": "torch.float32", "nn": True})
     # MCMC operators / adaptors
     op_sets = [["sliding"], ["scaler"], ["dirichlet"], ["sliding", "scaler", "dirichlet", "sliding2"], ["hmc"], ["hmc-adaptive"], ["hmc-dual"],
                ["hmc-mass"], ["hmc-dense"], ["hmc-dense-mass-adaptive"], ["hmc-mass-dual"], ["hmc-mass", "sliding", "scaler"]]
